@@ -1,5 +1,7 @@
 (* C15 -- Listings return every item exactly once and never over-read metadata.
-   Only statements closed by [exact]; the lemmas live in Proofs/Paging.v. *)
+   Only statements closed by [exact]; the lemmas live in Proofs/Paging.v.
+   Constants (defaultMaxMetadataBytes, filter names) are Generated/GC15.v,
+   re-translated from registry/remote on every run. *)
 From Oras Require Import Base.Prelude Generated.GC15 Model.Paging Proofs.Paging.
 
 (* parseLink returns exactly the text between '<' and the first '>' whatever follows *)
@@ -8,3 +10,95 @@ Theorem C15_parse_link :
     parse_link (c_lt :: t ++ c_gt :: rest) = LTarget t.
 Proof. exact parse_link_wellformed. Qed.
 Print Assumptions C15_parse_link.
+
+(* Tags / Repositories against any registry (any item list without duplicates, any split
+   oracle [ds], any cap, any page size, any [last], any Link rendering that net/url
+   resolves to the intended target): the loop ends without error, the concatenation of
+   the callback arguments is exactly the registry's suffix after [last] -- each item
+   once, in the registry's order -- within |suffix|+1 requests. *)
+Theorem C15_exactly_once :
+  forall (L : list item) (cap : nat) (ds : nat -> decision)
+         (render : nat -> url -> url -> str) (trailer : nat -> str)
+         (resolve : url -> str -> option url) (c : cfg) (path last0 : str) (fuel : nat),
+    c_kind c <> KReferrers ->
+    NoDup (map fst L) -> (forall it, In it L -> fst it <> []) ->
+    (forall i base x, In x (map fst L) ->
+       contains c_gt (render i base (link_target (ds i) base x)) = false) ->
+    (forall i base x, In x (map fst L) ->
+       resolve base (render i base (link_target (ds i) base x)) = Some (link_target (ds i) base x)) ->
+    (forall i, (Z.of_N (d_doc_len (ds i)) <= eff_limit (c_limit c))%Z) ->
+    (length (after last0 L) < fuel)%nat ->
+    let t := loop (reg_serve (c_kind c) L cap ds render trailer) resolve (fun _ => false) c
+                  fuel 0 0 (mkUrl path []) last0 in
+    t_out t = Done /\
+    concat (t_pages t) = after last0 L /\
+    NoDup (map fst (concat (t_pages t))) /\
+    (length (t_reqs t) <= S (length (after last0 L)))%nat.
+Proof. exact listing_exactly_once. Qed.
+Print Assumptions C15_exactly_once.
+
+(* Referrers: the delivered referrers are exactly those of the requested artifact type
+   (all of them when none is requested), once, in order, whether each page was filtered
+   by the registry (announced by header, by annotation, or not announced) or not. *)
+Theorem C15_filter :
+  forall (L : list item) (cap : nat) (ds : nat -> decision)
+         (render : nat -> url -> url -> str) (trailer : nat -> str)
+         (resolve : url -> str -> option url) (c : cfg) (path : str) (fuel : nat),
+    c_kind c = KReferrers ->
+    NoDup (map fst L) -> (forall it, In it L -> fst it <> []) ->
+    (forall i base x, In x (map fst L) ->
+       contains c_gt (render i base (link_target (ds i) base x)) = false) ->
+    (forall i base x, In x (map fst L) ->
+       resolve base (render i base (link_target (ds i) base x)) = Some (link_target (ds i) base x)) ->
+    (forall i, (Z.of_N (d_doc_len (ds i)) <= eff_limit (c_limit c))%Z) ->
+    (forall i, qget k_at (d_extra (ds i)) = None) ->
+    (length L < fuel)%nat ->
+    let t := loop (reg_serve KReferrers L cap ds render trailer) resolve (fun _ => false) c
+                  fuel 0 0 (mkUrl path (referrers_query (c_at c))) [] in
+    t_out t = Done /\
+    concat (t_pages t) = filter_referrers L (c_at c) /\
+    (length (t_reqs t) <= S (length L))%nat.
+Proof. exact referrers_exactly_once. Qed.
+Print Assumptions C15_filter.
+
+(* ---------- the hypotheses are satisfiable: a concrete registry and a toy net/url ---------- *)
+
+Definition ex_L : list item := [(b "a", b "t1"); (b "b", b "t2"); (b "c", b "t1"); (b "d", b "t1")].
+Definition ex_ds (i : nat) : decision :=
+  mkDec (1 + Nat.modulo i 2) [(b "x", VS (b "1"))] (Nat.even i) [] (if Nat.even i then [] else b "foo,artifactType") 10 1.
+(* link text = the cursor; the toy resolver rebuilds the target from it *)
+Definition ex_render (i : nat) (base tgt : url) : str := qget_s k_last (u_query tgt).
+Definition ex_resolve (base : url) (t : str) : option url := Some (link_target (ex_ds 0) base t).
+Definition ex_cfg (k : kind) : cfg := mkCfg k 3 100 (b "t1").
+
+Example C15_example_tags :
+  let t := loop (reg_serve KTags ex_L 2 ex_ds ex_render (fun _ => b "; rel=""next""")) ex_resolve
+                (fun _ => false) (ex_cfg KTags) 5 0 0 (mkUrl (b "/v2/r/tags/list") []) (b "a") in
+  t_out t = Done /\ map fst (concat (t_pages t)) = [b "b"; b "c"; b "d"] /\ length (t_reqs t) = 2%nat.
+Proof. vm_compute. repeat split. Qed.
+
+Example C15_example_hypotheses :
+  NoDup (map fst ex_L) /\ (forall it, In it ex_L -> fst it <> []) /\
+  (forall i base x, In x (map fst ex_L) ->
+     contains c_gt (ex_render i base (link_target (ex_ds i) base x)) = false) /\
+  (forall i base x, In x (map fst ex_L) ->
+     ex_resolve base (ex_render i base (link_target (ex_ds i) base x)) = Some (link_target (ex_ds i) base x)) /\
+  (forall i, (Z.of_N (d_doc_len (ex_ds i)) <= eff_limit (c_limit (ex_cfg KTags)))%Z) /\
+  (forall i, qget k_at (d_extra (ex_ds i)) = None).
+Proof.
+  split. { repeat constructor; simpl; intuition discriminate. }
+  split. { simpl. intros it H. repeat (destruct H as [<-|H]; [discriminate|]). contradiction. }
+  split. { intros i base x H. unfold ex_render, link_target, qget_s. cbn [u_query qget]. rewrite str_eqb_refl.
+           simpl in H. repeat (destruct H as [<-|H]; [reflexivity|]). contradiction. }
+  split. { intros i base x _. unfold ex_resolve, ex_render, link_target, qget_s. cbn [u_query qget].
+           rewrite str_eqb_refl. reflexivity. }
+  split. { intro i. vm_compute. discriminate. }
+  intro i. reflexivity.
+Qed.
+
+Example C15_example_referrers :
+  let t := loop (reg_serve KReferrers ex_L 2 ex_ds ex_render (fun _ => [])) ex_resolve
+                (fun _ => false) (ex_cfg KReferrers) 6 0 0
+                (mkUrl (b "/v2/r/referrers/d") (referrers_query (b "t1"))) [] in
+  t_out t = Done /\ map fst (concat (t_pages t)) = [b "a"; b "c"; b "d"].
+Proof. vm_compute. repeat split. Qed.
